@@ -16,5 +16,9 @@ Mk(mf, sy, th) == [maxFile |-> mf, sync |-> sy] @@ th
 MCConfigs == {Mk(mf, "none", th) : mf \in {0, 26, 60, Big}, th \in {ThAll, ThFrag, ThDead, ThNone}}
 MCConfigsSync == {Mk(mf, "always", th) : mf \in {0, 60}, th \in {ThAll, ThFrag}}
 
+\* the two configurations that exercise the most mechanism (every append rolls over / two
+\* entries per file; merges select everything / only fragmented files): used for deeper generation
+MCConfigsGen2 == {Mk(0, "none", ThAll), Mk(26, "none", ThFrag)}
+
 OpsBound == nops <= MaxOps
 ==============================================================================
